@@ -197,7 +197,8 @@ def pool_of_packages(text, flt):
         src = d.get("Source", d["Package"]).split()[0] if d.get("Source", "").strip() else d["Package"]
         if not package_allowed(flt, src, d["Package"]):
             continue
-        out[d["Filename"]] = size
+        if lex_safe(d["Filename"]):
+            out[os.path.normpath(d["Filename"])] = size
     return out
 
 
@@ -215,9 +216,26 @@ def pool_of_sources(text, flt):
             if field in d:
                 for ln in d[field].split("\n")[1:]:
                     parts = ln.split()
-                    if len(parts) == 3:
+                    if len(parts) == 3 and lex_safe(d["Directory"]) and lex_safe(parts[2]):
                         out[os.path.normpath(d["Directory"] + "/" + parts[2])] = int(parts[1])
     return out
+
+
+def lex_safe(path):
+    """relative and never above its starting point (what the tool must skip otherwise, C06)"""
+    if path.startswith("/") or ".." in path.split("/"):
+        return False  # entries with traversal components are "offending": skipped or mirrored, don't care
+    depth = 0
+    for part in path.split("/"):
+        if part in ("", "."):
+            continue
+        if part == "..":
+            depth -= 1
+            if depth < 0:
+                return False
+        else:
+            depth += 1
+    return True
 
 
 def ignored(ignore_errors, path):
